@@ -71,7 +71,7 @@ func fwdFrame(p, i int, v2, raw bool) (frame.Frame, ref.Frame) {
 func TestC11FanOut(t *testing.T) {
 	rec := evid.New(t, "C11", "2..5 channels on custom transports, 1..4 producer goroutines each running a generated program of WriteMessage/WriteFrame x All/To/Except with items tagged (producer, counter), targets including a closed channel, a channel of another node and nil; flow control keeps every channel's backlog below the 64-item queue; incoming traffic and a paced consumer run concurrently; per channel every transport write must be exactly one whole frame, each addressed item appears exactly once, nothing else appears, per (producer, channel) order is submission order, forwarded frames keep their header, originated messages carry the node's ids and the link's own gapless sequence; non-trivial = >=2 producers on >=3 channels with at least one Except and one To; distinct by hash of the programs")
 	rec.Require("2+producers-3+channels-to-except", "closed-target", "foreign-target", "v1", "v2", "signed")
-	evid.Check(t, rec, evid.N(120, 500), func(t *rapid.T) {
+	evid.Check(t, rec, evid.N(300, 800), func(t *rapid.T) {
 		w := &c11World{}
 		w.nch = rapid.IntRange(2, 5).Draw(t, "nch")
 		w.v2 = rapid.Bool().Draw(t, "v2")
